@@ -62,8 +62,10 @@ def _unavoidable(fn, start_bb, push_blocks, bypass=(), include_loop_head=True):
 
 
 def _false_result_edges(P, fn, cb):
-    """edges taken when the bool result of the call in cb is false (the callee reported 'nothing armed')"""
-    return guard_edges(P, fn, lambda atom, outcome, bb: outcome is False and any(x[0] == "call" and x[3] == (fn.name, cb) for x in strip(atom)))
+    """edges taken when the result of the call in cb says 'nothing armed': bool false / Option None"""
+    e1 = guard_edges(P, fn, lambda atom, outcome, bb: outcome is False and any(x[0] == "call" and x[3] == (fn.name, cb) for x in strip(atom)))
+    e2 = guard_edges(P, fn, lambda atom, outcome, bb: atom[0] == "variant" and outcome == frozenset(["None"]) and any(x[0] == "call" and x[3] == (fn.name, cb) for x in strip(atom[1])))
+    return e1 | e2
 
 
 class Pairing:
@@ -85,9 +87,24 @@ class Pairing:
                 out.append((f, b, i, "construct", tracer(P, f).operand(s["r"]["ops"][names.index(field)], (b, i))))
         return out
 
-    def paired_here(self, fn, bb, field, value, extra_vals=(), bypass=()):
+    def paired_here(self, fn, bb, field, value, extra_vals=(), bypass=(), result_of=None):
         pushes = push_sites(self.P, fn)
         good = []
+        if result_of is not None:
+            # the callee hands the new time back (Option<u64> / u64): a push of that result pairs it
+            for (pb, kind, e) in pushes:
+                inner = set()
+                for a in strip(e):
+                    inner.add(a)
+                    if a[0] == "agg" and a[4]:
+                        for o in a[4]:
+                            inner |= set(strip(o))
+                for a in inner:
+                    base = a
+                    while base[0] == "payload":
+                        base = base[1]
+                    if any(x[0] == "call" and x[3] == result_of for x in strip(base)):
+                        good.append((pb, kind))
         vals = set(strip(value)) if value is not None else set()
         for ev in extra_vals:
             vals |= set(strip(ev))
@@ -128,7 +145,7 @@ class Pairing:
             gtr = tracer(self.P, g)
             args = [gtr.operand(a, endpos(g, cb)) for a in t["args"]]
             bypass = _false_result_edges(self.P, g, cb)
-            ok, kinds = self.paired_here(g, cb, field, None, extra_vals=args, bypass=bypass)
+            ok, kinds = self.paired_here(g, cb, field, None, extra_vals=args, bypass=bypass, result_of=(g.name, cb))
             k2 = "%s|%s via %s#%d" % (g.name, what, fn.short if not fn.is_closure else fn.name.split("::")[-2] + "::{closure}", ord_[g.name])
             if ok:
                 self.ctx.ob(self.rule + ".F6.timer-paired", k2, True, g.loc(cb),
